@@ -165,6 +165,8 @@ def binop(op, a: Val, b: Val, node=None) -> Val:
             return Val(t, z3.SetIntersect(x, y))
         if opc is ast.Sub:
             return Val(t, z3.SetDifference(x, y))
+        if opc is ast.BitXor:
+            return Val(t, z3.SetUnion(z3.SetDifference(x, y), z3.SetDifference(y, x)))
         raise Unsupported("set operator", node)
     if ta == T.BOOL and tb == T.BOOL and opc in (ast.BitXor, ast.BitAnd, ast.BitOr):
         # bool ^ bool, bool & bool, bool | bool are bools in Python
@@ -358,8 +360,40 @@ def compare(op, a: Val, b: Val, node=None):
             return z3.And(z3.IsSubset(y, x), x != y)
     if isinstance(ta, T.Tuple) and ta == tb:
         return tuple_cmp(opc, a, b, node)
+    if isinstance(ta, T.List) and ta == tb and (is_num_or_str(ta.elem)):
+        return seq_lex_cmp(opc, a, b)
     x, y, _ = num_join(a, b)
     return {ast.Lt: x < y, ast.LtE: x <= y, ast.Gt: x > y, ast.GtE: x >= y}[opc]
+
+
+def is_num_or_str(t):
+    return t in (T.INT, T.REAL, T.STR, T.BOOL)
+
+
+def seq_lex_cmp(opc, a: Val, b: Val):
+    """lexicographic order of two sequences of numbers / strings (Python's list / tuple comparison), exactly:
+    a < b  <=>  exists k. the first k elements agree and (a ends at k and b does not, or both go on and a[k] < b[k])"""
+    x, y = lift(a), lift(b)
+    et = a.ty.elem
+    if opc in (ast.Gt, ast.GtE):
+        x, y = y, x
+        opc = ast.Lt if opc is ast.Gt else ast.LtE
+    k, i = z3.Int(fresh_name_("lk")), z3.Int(fresh_name_("li"))
+    ex_, ey_ = x[k], y[k]
+    if et == T.BOOL:
+        elt_lt = z3.And(z3.Not(ex_), ey_)
+    else:
+        elt_lt = ex_ < ey_
+    agree = z3.ForAll([i], z3.Implies(z3.And(0 <= i, i < k), x[i] == y[i]))
+    lt = z3.Exists([k], z3.And(0 <= k, k <= z3.Length(x), k <= z3.Length(y), agree,
+                             z3.Or(z3.And(k == z3.Length(x), k < z3.Length(y)), z3.And(k < z3.Length(x), k < z3.Length(y), elt_lt))))
+    return lt if opc is ast.Lt else z3.Or(lt, x == y)
+
+
+def fresh_name_(prefix):
+    from .core import fresh_name
+
+    return fresh_name(prefix)
 
 
 def tuple_cmp(opc, a, b, node):
@@ -461,6 +495,12 @@ def ite(c, a: Val, b: Val) -> Val:
             pass
         if not isinstance(a.py, _CT) and not isinstance(b.py, _CT):
             raise PyMerge(f"cannot merge the python-level values {a.py!r} and {b.py!r}")
+    if j is None:
+        # a Union value against a value of one of its alternatives (after `isinstance` narrowing in one branch)
+        if isinstance(a.ty, T.Union) and b.ty in a.ty.alts:
+            j = a.ty
+        elif isinstance(b.ty, T.Union) and a.ty in b.ty.alts:
+            j = b.ty
     if j is None:
         # a symbolic list against a concrete tuple / list (`languages or ()`): both iterate alike
         if isinstance(a.ty, T.List) and not a.is_py and b.is_py and isinstance(b.py, (tuple, list)):
